@@ -557,6 +557,21 @@ async fn data_mode(out: &str, scenarios: Option<String>, classes: bool, random: 
         (None, None)
     };
     w.tr.emit(json!({"ev": "Probe", "n2": n2.unwrap_or(0), "n3": n3.unwrap_or(0), "max": max}));
+    // The search above asks the implementation how deep its trees are. If it never builds a tree of 2 (3) levels
+    // inside the searched range -- where the data map cannot fit one chunk otherwise -- the input at the end of
+    // the range is judged as it is (chunk bound, addressing, round trip), whatever its depth.
+    if small {
+        let hi2 = 4 * (max / 64).max(8);
+        let fallback = match (n2, n3) {
+            (None, _) => Some(hi2),
+            (Some(n2), None) => Some((n2 + 2) * (n2 + 2) * 2),
+            _ => None,
+        };
+        if let Some(n) = fallback {
+            let s = InputSpec { len: n * max, content: "rand".into(), seed };
+            w.run_input(&s, "depth-fallback", "class", &[("public".to_string(), vec![], false)], 0).await;
+        }
+    }
 
     // (a) TLC scenarios: levels, n1 (for one-level trees), api, batch, order
     if let Some(path) = scenarios {
